@@ -26,7 +26,17 @@ def base_env():
     env["CARGO_NET_OFFLINE"] = "true"
     env["VERIF_REPO"] = REPO
     env.pop("RUSTFLAGS", None)
+    cov = os.environ.get("VERIF_COVERAGE")
+    if cov:
+        global _NIGHTLY_LIB
+        if _NIGHTLY_LIB is None:
+            _NIGHTLY_LIB = os.path.join(subprocess.run(["rustc", "+nightly", "--print", "sysroot"], stdout=subprocess.PIPE, text=True, check=True).stdout.strip(), "lib")
+        env["LD_LIBRARY_PATH"] = _NIGHTLY_LIB + ":" + env.get("LD_LIBRARY_PATH", "")
+        env["LLVM_PROFILE_FILE"] = os.path.join(cov, "raw", "p-%p-%8m.profraw")
     return env
+
+
+_NIGHTLY_LIB = None
 
 
 def run(cmd, cwd=None, env=None, timeout=None, input=None, check=False):
@@ -50,15 +60,20 @@ _INPROC_BUILT = {}
 def inproc_bin(nightly=False):
     """Builds (cargo decides whether anything changed in /repo or the engine) and returns the path."""
     key = "nightly" if nightly else "stable"
+    cov = os.environ.get("VERIF_COVERAGE")   # diagnostic mode of tools/coverage.sh: one instrumented nightly build serves both
+    if cov:
+        key = "cov"
     if key in _INPROC_BUILT:
         return _INPROC_BUILT[key]
     crate = os.path.join(VERIF, "engines", "inproc")
     tdir = os.path.join(TARGET, "inproc-" + key)
     env = base_env()
     env["CARGO_TARGET_DIR"] = tdir
-    cmd = ["cargo"] + (["+nightly"] if nightly else []) + ["build", "--release", "--offline", "--quiet"]
-    if nightly:
+    cmd = ["cargo"] + (["+nightly"] if nightly or cov else []) + ["build", "--release", "--offline", "--quiet"]
+    if nightly or cov:
         cmd += ["--features", "rustc_ref"]
+    if cov:
+        env["RUSTFLAGS"] = "-C instrument-coverage"
     p = run(cmd, cwd=crate, env=env, timeout=1200)
     if p.returncode != 0:
         raise MachineryError("inproc engine build failed:\n" + p.stderr[-8000:])
